@@ -231,6 +231,14 @@ ClauseLemma ==
         /\ ~Explained([alongz EXCEPT !.phot[2] = GoodPhot(TRUE)], V)
         /\ ~Explained(alongz, V \cup {"C20.PositionOnSegment"})
         /\ ~Explained([alongz EXCEPT !.proc = "scint"], V)
+  /\ LET offcone == [Good(TRUE) EXCEPT !.phot[1].cone = 4] @@ [axis |-> [near |-> TRUE, yneg |-> TRUE]]
+     IN /\ Clauses(offcone) = {"C20.CerenkovCone"}
+        /\ Explained(offcone, {"C20.CerenkovCone"})
+        /\ Explaining(offcone, {"C20.CerenkovCone"}) = {"RotateNearPoleNegativeY"}
+        /\ ~Explained([offcone EXCEPT !.axis.yneg = FALSE], {"C20.CerenkovCone"})
+        /\ ~Explained([offcone EXCEPT !.axis.near = FALSE], {"C20.CerenkovCone"})
+        /\ ~Explained([Good(TRUE) EXCEPT !.phot[1].cone = 4], {"C20.CerenkovCone"})
+        /\ ~Explained(offcone, {"C20.CerenkovCone", "C20.UnitDirection"})
 NFaults == Cardinality(Faults(TRUE)) + Cardinality(Faults(FALSE))
 
 ASSUME PartitionLemma
